@@ -334,7 +334,7 @@ func (fv *FnV) lockPanicSafe(st *State, m string, pos token.Pos) {
 		done := false
 		for i := p.i; i < len(p.b.Instrs) && !done && ok; i++ {
 			switch x := p.b.Instrs[i].(type) {
-			case *ssa.DebugRef, *ssa.UnOp, *ssa.Store, *ssa.Phi, *ssa.BinOp, *ssa.Alloc, *ssa.MakeInterface, *ssa.ChangeType, *ssa.Extract, *ssa.FieldAddr, *ssa.MakeClosure, *ssa.ChangeInterface:
+			case *ssa.DebugRef, *ssa.UnOp, *ssa.Store, *ssa.Phi, *ssa.BinOp, *ssa.Alloc, *ssa.MakeInterface, *ssa.ChangeType, *ssa.Extract, *ssa.FieldAddr, *ssa.MakeClosure, *ssa.ChangeInterface, *ssa.Lookup:
 			case *ssa.Defer:
 				if f := x.Common().StaticCallee(); f != nil && strings.HasSuffix(f.Name(), "Unlock") {
 					done = true
@@ -344,8 +344,11 @@ func (fv *FnV) lockPanicSafe(st *State, m string, pos token.Pos) {
 					done = true
 					break
 				}
-				if bi, isB := x.Common().Value.(*ssa.Builtin); isB && (bi.Name() == "append" || bi.Name() == "len" || bi.Name() == "cap") {
+				if bi, isB := x.Common().Value.(*ssa.Builtin); isB && (bi.Name() == "append" || bi.Name() == "len" || bi.Name() == "cap" || bi.Name() == "delete") {
 					break
+				}
+				if f := x.Common().StaticCallee(); f != nil && f.Pkg != nil && (f.Pkg.Pkg.Path() == "strings" || f.Pkg.Pkg.Path() == "strconv") {
+					break // total library functions
 				}
 				ok = false
 				why = "a call between Lock and Unlock can panic while the mutex is held: " + fv.siteText(x.Pos(), "call")
@@ -368,5 +371,38 @@ func (fv *FnV) lockPanicSafe(st *State, m string, pos token.Pos) {
 	if !ok {
 		o.Static = "fails: " + why
 		o.Script = ""
+	}
+}
+
+// notePublished: a slice stored into a map held by a guarded global becomes visible to every goroutine that takes the lock.
+func (fv *FnV) notePublished(mu *ssa.MapUpdate) {
+	gd := fv.guardedVals[mu.Map]
+	if gd == nil || gd.Kind != "guarded_by" {
+		return
+	}
+	v := fv.val(mu.Value)
+	if v.v.S != sSlice {
+		return
+	}
+	fv.published = append(fv.published, publishedRef{ref: "(s!ref " + v.v.T + ")", gd: gd, pos: mu.Pos()})
+}
+
+type publishedRef struct {
+	ref string
+	gd  *GlobalDecl
+	pos token.Pos
+}
+
+// publishedWrite: an element store into an array that was published through a guarded map needs the guard.
+func (fv *FnV) publishedWrite(st *State, ref string, pos token.Pos) {
+	for _, p := range fv.published {
+		mg, ok := fv.g.spkgs[fv.pkgTypes().Path()].Members[p.gd.Mutex].(*ssa.Global)
+		if !ok {
+			continue
+		}
+		m := fv.val(mg).v.T
+		held := not(eq(sel(fv.heapGet(st, "G|held"), m), "0"))
+		fv.emit(st, "L", "published:"+p.gd.Name+":"+fv.siteText(pos, "index"), fv.lockProps(), or(held, not(eq(ref, p.ref))),
+			"an array stored into "+p.gd.Name+" (at "+fv.posString(p.pos)+") is written afterwards only with "+p.gd.Mutex+" held", pos)
 	}
 }
